@@ -21,6 +21,7 @@ struct OsslCfg {
     bool ems = true;                       // extended master secret allowed (false: SSL_OP_NO_EXTENDED_MASTER_SECRET)
     int num_tickets = 2;                   // TLS 1.3 server
     bool psk = false;                      // TLS <= 1.2 PSK callbacks with the repository's test PSK table
+    int max_early = 0;                     // server: accept up to this much TLS 1.3 0-RTT data (read with SSL_read_early_data)
 };
 
 struct OsslShared;     // SSL_CTX + saved client session: survives across connections of one run (resumption state)
@@ -39,6 +40,7 @@ class OsslEndpoint {
     bool got_close_notify = false;
     Fingerprint fp;
     ~OsslEndpoint();
+    std::vector<Bytes> early_delivered;            // server: 0-RTT data read before the handshake finished
     Bytes early_payload;                           // client, TLS 1.3 resumption: written as 0-RTT data with the ClientHello (set before create)
     int early_write_rc = -2;                       // SSL_write_early_data result (-2: not attempted)
     int early_status();                            // 0 not sent, 1 rejected, 2 accepted (SSL_get_early_data_status)
@@ -56,6 +58,7 @@ class OsslEndpoint {
     bool alive() const { return ssl_ != nullptr; }
   private:
     void *ssl_ = nullptr; void *rbio_ = nullptr, *wbio_ = nullptr; OsslShared *sh_ = nullptr;
+    bool early_read_done_ = false;
     std::vector<Bytes> pending_writes_;            // application payloads accepted before the handshake finished
 };
 
